@@ -34,3 +34,9 @@ def is_marker(v):
     w = v.lower()
     body = w[1:].strip() if (w.startswith("#") or w.startswith(";")) else (w[2:].strip() if (w.startswith("//") or w.startswith("/*")) else w)
     return body.startswith("nocl")
+
+
+def codebase_ok(cb):
+    # representation invariant of Codebase: three separate dictionaries, and the root folder is registered
+    return dict_separate(cb.files, cb.totals) and dict_separate(cb.files, cb.tree) and dict_separate(cb.totals, cb.tree) \
+        and has_key(cb.tree, "./")
